@@ -16,7 +16,7 @@ import checklib as cl
 EDGE_INTS = ['0', '1', '-1', '2', '3', '7', '-7', '63', '64', '9223372036854775807', '(-9223372036854775807 - 1)', '9007199254740992', '9007199254740993',
              '-9223372036854775807', '4611686018427387904']
 EDGE_FLOATS = ['0.0', '-0.0', '1.5', '-2.5', '1e19', '-1e19', '2e19', '1e308', '5e-324', '9007199254740993.0', '(0.0/0.0)', '(1.0/0.0)']
-STRS = ['""', '"a"', '"b"', '"ab"', '"aäb"', '"a\\"b"', '"/* x */"', '"// y"']
+STRS = ['""', '"a"', '"b"', '"ab"', '"aäb"', '"äöü"', '"a\\"b"', '"/* x */"', '"// y"']
 BOOLS = ['true', 'false']
 OTHER = ['()', '(1, 2)', '(1, (2, 3))', '((),)']
 BINOPS = ['+', '-', '*', '/', '%', '^', '==', '!=', '<', '>', '<=', '>=', '&&', '||']
@@ -79,7 +79,7 @@ def pool_tree():
 
 
 def pool_lexer():
-    words = ['1', '25', '0x1F', '0xg', '1.5', '.5', '5.', '1e3', '1E3', '25E-1', '1e-3', '5e-3-2e-3', '1e+3', '1e+', 'e+3', 'true', 'false', 'True', 'abc', 'a_1', '1a', 'ä',
+    words = ['1', '25', '0x1F', '0xg', '0xe', '0x1e', '0xE5', '0xdeadbeef', '0x1e-3', 'π', 'aé', 'maß', '1.5', '.5', '5.', '1e3', '1E3', '25E-1', '1e-3', '5e-3-2e-3', '1e+3', '1e+', 'e+3', 'true', 'false', 'True', 'abc', 'a_1', '1a', 'ä',
              '"x"', '"a\\\\b"', '"a\\"b"', '"a\\nb"', '"unterminated', '"/**/"', '9223372036854775807', '9223372036854775808', '0x7fffffffffffffff', '0x8000000000000000',
              '1e400', '0x', '1_000']
     seps = ['', ' ', '\t', '\n', ' ', ' ', '/**/', '/* c */', '// c\n', '/*', '/*/', '/**//**/', ' /**/ ']
